@@ -24,8 +24,9 @@ ASSUME = [
     "childless node); the property quantifies over legal histories",
     "lookup domain: slot 0 is the live root, the scope is a node of the tree, no scope holds two children with the same name; "
     "expressions are the raw NameString bytes the parser hands to Find: ['\\\\' | '^'*] followed by nothing, name segments joined, "
-    "0x2E seg seg, or 0x2F count seg*count.  Too-short names (a 1..3 byte stub after a well-formed start, or the empty "
-    "expression) must give not-found; any other malformed byte string merely has to return",
+    "0x2E seg seg, or 0x2F count seg*count.  Too-short names (a 1..3 byte stub after a well-formed start, the empty "
+    "expression, or a 0x2E / 0x2F [count] prefix followed by no name at all) must give not-found; any other malformed byte "
+    "string (e.g. a dual/multi prefix followed by fewer or more complete segments than announced) merely has to return",
     "a MultiNamePath with SegCount 1 and no prefix may be resolved either as a single segment (upward search) or downward only",
     "which freed slot is reused is the implementation's choice (the monitor checks membership); the LIFO free list is only "
     "the refinement used to generate leg G scripts (a script stops, without verdict, where the real tree picks another slot)",
@@ -326,7 +327,7 @@ def run(ctx):
 
     # ---- leg M (the runs are independent: start them together)
     edit_bugs = ["AfterNoPrevFix"] if q else ["AfterNoPrevFix", "AppendNoPrev", "DetachKeepsLast", "DetachNoPrevNext", "FreeNoDetach", "GrowWithFreeList"]
-    find_bugs = ["SingleNoUpward"] if q else ["CaretGrandparent", "SingleNoUpward", "MultiUpward", "SegCountAsName"]
+    find_bugs = ["SingleNoUpward"] if q else ["CaretGrandparent", "SingleNoUpward", "MultiUpward", "SegCountAsName", "HdrNoLengthGuard"]
     jobs = [
         lambda: ctx.model_check(d, "MCObjTree", "MCObjTreeEdit" + tier, workers=1, env={"GRAPH": graph}, timeout=1500,
                                 coverage=not q, name="M-edit"),
